@@ -95,6 +95,11 @@ def run_case(case, strict=False):  # pylint: disable=unused-argument,too-many-br
                     snap = after.get(it.idx)
                     if snap is not None and not snap["enabled"]:
                         out.append(asserts.F("c14_enable_ignored", it, "exclusion still disabled after a matching enable"))
+    # "the same re-synchronisation obligations as leaving a region": the extruder coordinate and the amounts extruded afterwards
+    # (C04), and a recovery skipped inside the episode is still owed after the disable (C05) - programs have matched cycles
+    out += [dict(f, tag="c14_" + f["tag"]) for f in asserts.c04(tr) if f["tag"] in ("c04_e_outside", "c04_e_coordinate", "c04_deposit", "c04_amount")]
+    out += [dict(f, tag="c14_" + f["tag"]) for f in asserts.c05(tr, bool(case.get("meta", {}).get("fw")))
+            if f["tag"] in ("c05_deeper", "c05_shallower", "c05_not_recovered")]
     cl2, _ = asserts.classes(tr, case)
     cl |= cl0
     return out, {"nontrivial": nontrivial, "classes": sorted(cl | cl2), "truncated": tr.truncated, "excluded_known": case.get("meta", {}).get("excluded_known", 0),
